@@ -1,6 +1,6 @@
 (* Props/C01.v — Ray tracing returns the globally fastest discrete ray (Fermat).
    Only statements; every proof is `exact <lemma>` (lemmas in Proofs/MinPlusProofs.v,
-   Proofs/FermatProofs.v).  Models: Model/MinPlus.v (the kernel _find_minimum_times),
+   Proofs/FermatProofs.v, Proofs/FermatSnell.v, Proofs/FermatSnellN.v).  Models: Model/MinPlus.v (the kernel _find_minimum_times),
    Model/Fermat.v (FermatPath, Rays, FermatSolver with its caches).
 
    The cost type T is ABSTRACT: `leb` a total preorder, `ltb a b = negb (leb b a)`
@@ -24,11 +24,16 @@
 
    What these theorems do NOT cover (sampled at run time by harness/prop_C01.py):
    memory layout (C/F), dtype casts, the thread pool (C13), the
-   gone_through_extreme_points warning, the continuous (Snell) minimiser itself:
-   in discrete_between the continuous problem enters only through a lower bound L. *)
+   gone_through_extreme_points warning.  The continuous problem enters discrete_between
+   through an arbitrary lower bound L; for ANY NUMBER of flat parallel interfaces in the
+   plane the last section identifies the best such L: the travel time of the ray that
+   obeys Snell's law at every interface is the global minimum of the continuous travel
+   time (snell_global_min, discrete_between_snell).  Curved or non-parallel surfaces and
+   3-D rays: not mechanised (there L stays abstract). *)
 From Coq Require Import Arith List Bool ZArith QArith Lia Reals.
 From Arim Require Import Base.Num Base.NumQ Model.MinPlus Model.Fermat
-                         Proofs.MinPlusProofs Proofs.FermatProofs Proofs.FermatSnell.
+                         Proofs.MinPlusProofs Proofs.FermatProofs Proofs.FermatSnell
+                         Proofs.FermatSnellN.
 Import ListNotations.
 Local Open Scope nat_scope.
 
@@ -271,7 +276,9 @@ Proof. exact rays_reverse_valid_lemma. Qed.
    continuous travel time:  L <= times[i][j] <= ctime of ANY sample tuple, in particular of the
    samples nearest to the continuous (Snell) crossing points.
    fermat_stationary_snell below identifies the continuous minimiser with the Snell ray for
-   one flat interface; for more interfaces "Snell" is only the name of L. *)
+   one flat interface, snell_global_min / fermat_snellN / discrete_between_snell (section
+   "any number of flat parallel interfaces") for n of them; for other geometries "Snell" is
+   only the name of L. *)
 Theorem discrete_between : forall T D V PS (leb ltb : T -> T -> bool) (add : T -> T -> T)
     (size : PS -> nat) (dtab : PS -> PS -> list (list D)) (divv : D -> V -> T)
     (wf : PS -> V -> PS -> nat -> nat -> T),
@@ -293,13 +300,122 @@ Proof. exact discrete_between_lemma. Qed.
    sin(theta1) / c1 = sin(theta2) / c2  with sin(theta1) = (x - xa) / |A X| and
    sin(theta2) = (xb - x) / |X B| (angles to the normal).  So the lower bound L of
    discrete_between attained by the continuous minimiser is the Snell ray's travel time.
-   (One interface only; several interfaces / curved surfaces: not mechanised.) *)
+   (One interface; any number of flat parallel interfaces: next section; curved surfaces:
+   not mechanised.) *)
 Theorem fermat_stationary_snell : forall xa za xb zb c1 c2 x a b : R,
   (za <> 0 -> zb <> 0 -> c1 <> 0 -> c2 <> 0 -> a < x < b ->
    (forall y, a < y < b -> ttime xa za xb zb c1 c2 x <= ttime xa za xb zb c1 c2 y) ->
    (x - xa) / sqrt ((x - xa) * (x - xa) + za * za) / c1
    = (xb - x) / sqrt ((xb - x) * (xb - x) + zb * zb) / c2)%R.
 Proof. exact fermat_stationary_snell_lemma. Qed.
+
+(* ---- any number of flat parallel interfaces (2-D) ---------------------------------- *)
+(* n >= 0 horizontal interfaces, n+1 legs.  ls = [(h_0, v_0); ...; (h_n, v_n)] thickness and
+   velocity of the layer crossed by leg k (layers_ok: all > 0); a, b abscissae of source and
+   target; xs = [x_1; ...; x_n] abscissae of the crossing points.
+     leg h v d   = sqrt (d*d + h*h) / v                      time of a leg of horizontal extent d
+     slope h v d = d / (v * sqrt (d*d + h*h))                = sin(theta) / v
+     ttimeN ls a xs b = sum_k leg h_k v_k (x_{k+1} - x_k)     (x_0 = a, x_{n+1} = b)
+     slopesN ls a xs b = [sin(theta_0)/v_0; ...; sin(theta_n)/v_n]
+     snellN ls a xs b : consecutive entries of slopesN are equal (Snell at every interface)
+   All statements are for every n (induction over the lists). *)
+
+(* each leg time is differentiable in its horizontal extent, derivative sin(theta)/v ... *)
+Theorem leg_time_derivative : forall h v d : R, (0 < h)%R -> (0 < v)%R ->
+  derivable_pt_lim (leg h v) d (slope h v d).
+Proof. exact leg_derive_Reals. Qed.
+
+(* ... where theta = atan (d / h) is the angle of the leg to the normal of the interfaces *)
+Theorem leg_slope_is_sine_over_v : forall h v d : R, (0 < h)%R -> (0 < v)%R ->
+  slope h v d = (sin (atan (d / h)) / v)%R.
+Proof. exact slope_sin_atan. Qed.
+
+(* the leg time lies above its tangent lines (Cauchy-Schwarz) and is convex *)
+Theorem leg_time_tangent : forall h v d e : R, (0 < h)%R -> (0 < v)%R ->
+  (leg h v d + slope h v d * (e - d) <= leg h v e)%R.
+Proof. exact leg_tangent. Qed.
+
+Theorem leg_time_convex : forall h v d e t : R, (0 < h)%R -> (0 < v)%R -> (0 <= t <= 1)%R ->
+  (leg h v (t * d + (1 - t) * e) <= t * leg h v d + (1 - t) * leg h v e)%R.
+Proof. exact leg_convex. Qed.
+
+(* Snell at every interface <=> one ray parameter p = sin(theta_k)/v_k for all legs *)
+Theorem snell_invariant : forall ls a xs b,
+  snellN ls a xs b <-> exists p, Forall (fun s => s = p) (slopesN ls a xs b).
+Proof. exact snellN_invariant. Qed.
+
+(* SNELL ==> GLOBAL MINIMUM: the ray obeying Snell's law at every interface is at least as fast
+   as the ray through ANY other crossing points (tangent-line inequalities of all legs summed;
+   the linear terms telescope because p is common and both rays go from a to b) *)
+Theorem snell_global_min : forall ls a xs b,
+  layers_ok ls -> length ls = S (length xs) -> snellN ls a xs b ->
+  forall ys, length ys = length xs -> (ttimeN ls a xs b <= ttimeN ls a ys b)%R.
+Proof. exact snell_global_min_lemma. Qed.
+
+(* FERMAT ==> SNELL: a LOCAL minimiser (within eps in every coordinate) obeys Snell's law at
+   every interface *)
+Theorem fermat_snellN : forall ls, layers_ok ls -> forall a xs b,
+  length ls = S (length xs) ->
+  (exists eps, (0 < eps)%R /\ forall ys, Forall2 (fun x y => (Rabs (y - x) < eps)%R) xs ys ->
+                                         (ttimeN ls a xs b <= ttimeN ls a ys b)%R) ->
+  snellN ls a xs b.
+Proof. exact fermat_snellN_lemma. Qed.
+
+(* the partial derivative of the travel time in the crossing point x_k (k = length pre) is
+   sin(theta_k)/v_k - sin(theta_{k+1})/v_{k+1} ... *)
+Theorem travel_time_partial_derivative : forall ls, layers_ok ls ->
+  forall (pre : list R) (a x : R) (post : list R) (b : R),
+  length ls = S (length (pre ++ x :: post)) ->
+  derivable_pt_lim (fun y : R => ttimeN ls a (pre ++ y :: post) b) x
+    (nth (length pre) (slopesN ls a (pre ++ x :: post) b) 0
+     - nth (S (length pre)) (slopesN ls a (pre ++ x :: post) b) 0)%R.
+Proof. exact ttimeN_partial_Reals. Qed.
+
+(* ... so the stationary points (all partial derivatives vanish) are exactly the Snell rays *)
+Theorem stationary_iff_snell : forall ls a xs b,
+  layers_ok ls -> length ls = S (length xs) ->
+  ((forall (pre : list R) (x : R) (post : list R), xs = pre ++ x :: post ->
+      derivable_pt_lim (fun y : R => ttimeN ls a (pre ++ y :: post) b) x 0%R)
+   <-> snellN ls a xs b).
+Proof. exact stationary_iff_snell_lemma. Qed.
+
+(* Snell ray <=> global minimiser <=> local minimiser of the continuous travel time *)
+Theorem snell_min_equiv : forall ls a xs b,
+  layers_ok ls -> length ls = S (length xs) ->
+  (snellN ls a xs b <-> global_minN ls a xs b) /\ (snellN ls a xs b <-> local_minN ls a xs b).
+Proof. exact snell_min_equiv_lemma. Qed.
+
+(* samples = one non-empty list of sampled abscissae per interface; discrete_minN = the minimum
+   of ttimeN over all choices of one sample per interface (is_choice ys samples).  Then
+   continuous Snell time <= discrete minimum (attained) <= time through ANY tuple of samples. *)
+Theorem snell_discrete_min : forall ls a xs b samples,
+  layers_ok ls -> length ls = S (length xs) -> snellN ls a xs b ->
+  length samples = length xs -> Forall (fun s => s <> []) samples ->
+  (ttimeN ls a xs b <= discrete_minN ls a samples b)%R
+  /\ (exists ys, is_choice ys samples /\ discrete_minN ls a samples b = ttimeN ls a ys b)
+  /\ (forall ys, is_choice ys samples -> (discrete_minN ls a samples b <= ttimeN ls a ys b)%R).
+Proof. exact snell_discrete_min_lemma. Qed.
+
+(* discrete_between for the verified solver over the reals with L := the Snell ray's travel time:
+   if the interior sets sample n flat parallel interfaces (the discrete cost of every valid index
+   tuple is ttimeN through the abscissae `sample ridx` of its interior points), then
+       Snell time <= times[i][j] <= time of the ray through any tuple of samples,
+   in particular through the samples nearest to the Snell crossing points. *)
+Theorem discrete_between_snell : forall (D V PS : Type) (size : PS -> nat)
+    (dtab : PS -> PS -> list (list D)) (divv : D -> V -> R)
+    (wf : PS -> V -> PS -> nat -> nat -> R),
+  leg_model size dtab divv wf ->
+  forall (p : fpath V PS) (r : rays R) (i j : nat) ls a xs b (sample : list nat -> list R),
+    layers_ok ls -> length ls = S (length xs) -> snellN ls a xs b ->
+    interior_ok size p -> solve_pure Rltb Rplus size dtab divv p = Some r ->
+    i < size (startp p) -> j < size (endp p) ->
+    (forall ridx c, cost Rplus size wf p ridx = Some c -> last ridx 0 = i -> hd 0 ridx = j ->
+                    length (sample ridx) = length xs /\ ttimeN ls a (sample ridx) b = c) ->
+    exists t, get2 (r_times r) i j = Some t
+              /\ (ttimeN ls a xs b <= t)%R
+              /\ (forall ridx c, cost Rplus size wf p ridx = Some c -> last ridx 0 = i -> hd 0 ridx = j ->
+                                 (t <= ttimeN ls a (sample ridx) b)%R).
+Proof. exact discrete_between_snell_lemma. Qed.
 
 (* the reals with <= and + are an instance of every hypothesis used above (total preorder,
    monotone, associative, commutative, antisymmetric); the Euclidean leg time is symmetric *)
@@ -359,3 +475,15 @@ Proof.
   - rewrite Z.ltb_antisym. reflexivity.
   - apply Z.leb_le in H. apply Z.leb_le. lia.
 Qed.
+
+(* two interfaces, three 3-4-5 legs with velocities 1, 4/3, 1 (ex_layers = [(4,1); (3,4/3); (4,1)],
+   a = 0, crossings 3 and 7, b = 10): sin(theta)/v = 3/5 on every leg, the Snell ray takes
+   55/4, every other pair of crossing points takes at least that, and so does the discrete
+   minimum over the samples {2,4} x {6,8} *)
+Example snell_example :
+  layers_ok ex_layers
+  /\ snellN ex_layers 0 [3; 7]%R 10
+  /\ ttimeN ex_layers 0 [3; 7]%R 10 = (55 / 4)%R
+  /\ (forall y1 y2 : R, (55 / 4 <= ttimeN ex_layers 0 [y1; y2] 10)%R)
+  /\ (55 / 4 <= discrete_minN ex_layers 0 [[2; 4]; [6; 8]]%R 10)%R.
+Proof. exact snell_example_lemma. Qed.
